@@ -142,7 +142,7 @@ CHECKS["C08"] = {
                  "differential oracle: reader probe == writer probe shifted by exactly one step",
     "design_ref": "DESIGN.md 2/C08",
     "parts": [{"name": "feedback", "exe": "c08_feedback", "sources": ["c08_feedback.cpp"], "shards": 16}],
-    "rule": "topologies: open loop TS (with and without declared initial value), TSS, TSD; self loop out=ts+fb with an active reader (window of 14 "
+    "rule": "topologies: open loop TS (with and without declared initial value), TSS, TSD, a fixed TSL<TS<Int>,2> and a TSB{a,b} whose elements get their first values in different cycles or never; self loop out=ts+fb with an active reader (window of 14 "
             "steps) and with a passive reader (must go quiescent); the same two inside nested_; two independent loops ticking together; a "
             "mutual loop (active / passive); a TSS feedback bound to an if_then_else-selected writer. Histories: every sequence over T cycles of "
             "{no write, write 1, write 2} (equal values on consecutive steps included); for sets {none,+1,+2,-1,-2,+1+2,clear,+1-1}^T, for dicts "
